@@ -12,7 +12,8 @@
 (***************************************************************************)
 EXTENDS Integers, Sequences, FiniteSets, TLC
 
-Points == {"before_output", "mid_line", "after_line", "idle", "in_unary", "in_stream", "broker_after_id", "during_stdio"}
+\* in_accept: the host is waiting in the broker's Accept for an id nobody has dialled when the plugin dies
+Points == {"before_output", "mid_line", "after_line", "idle", "in_unary", "in_stream", "in_accept", "broker_after_id", "during_stdio"}
 Protos == {"netrpc", "grpc", "grpcmux"}
 Ops == {"start", "client", "dispense", "ping", "call", "stream", "broker_dial", "broker_accept", "kill"}
 
@@ -45,7 +46,8 @@ Bound(proto, op) ==
     [] OTHER -> 3000
 
 \* which (point, protocol) combinations exist
-Exists(point, proto) == (point = "in_stream") => IsGRPC(proto)
+Exists(point, proto) == /\ (point = "in_stream") => IsGRPC(proto)
+                        /\ (point = "in_accept") => ~IsGRPC(proto)      \* gRPC's Accept opens a listener and returns: there is no wait
 
 VARIABLES point, proto, op, startedOk, res
 cv == <<point, proto, op, startedOk, res>>
